@@ -11,7 +11,7 @@ function runJob(job) {
     // evaluate a plain JS expression with data D in scope (reference semantics for C03)
     try {
       const D = rt.decodeValue(job.data)
-      const f = new Function('D', 'X', 'P', 'Y', 'REFSPREAD', '"use strict";return (' + job.expr + ')')
+      const f = new Function('D', 'X', 'P', 'Y', 'REFSPREAD', 'ITEMS', '"use strict";return (' + job.expr + ')')
       const X = (a) => (a == null ? Object.create(null) : a)
       const P = (a) => (typeof a === 'function' ? a : () => {})
       const Y = (a) => (a == null ? '' : String(a))
@@ -21,7 +21,8 @@ function runJob(job) {
         for (let i = 0; i < a.length; i += 1) if (!(i in a)) throw new Error('$SKIP spread of a sparse array')
         return a
       }
-      return { id: job.id, value: rt.encodeValue(f(D, X, P, Y, REFSPREAD)) }
+      const ITEMS = (l) => { const r = rt.listItems(l); return r.items.map((v, i) => [v, r.indexes === null ? i : r.indexes[i]]) }
+      return { id: job.id, value: rt.encodeValue(f(D, X, P, Y, REFSPREAD, ITEMS)) }
     } catch (e) {
       const msg = String(e && e.message)
       if (msg.startsWith('$SKIP')) return { id: job.id, skip: msg }
